@@ -8,6 +8,7 @@ import itertools
 from ..core.result import R
 from ..refs import multipart_ref as MR
 from . import mp_common as MP
+from ..core import servers as SV
 
 PROPERTY = "C01"
 LEVEL = "model_checking"
@@ -37,7 +38,7 @@ def shards(tier, seed):
 
 
 def describe(parts):
-    return [{"name": p["name"], "filename": p["filename"], "content": p["content"], "ctype": p["ctype"]} for p in parts]
+    return [dict({"name": p["name"], "filename": p["filename"], "content": p["content"], "ctype": p["ctype"]}, **({"extra": [list(x) for x in p["extra"]]} if p.get("extra") else {})) for p in parts]
 
 
 def run_shard(desc, tier):
@@ -132,6 +133,41 @@ def run_shard(desc, tier):
                 try:
                     fn([body[:7], body[7:]], boundary, charset)
                 except Exception:  # noqa - whatever the bad request gets is not judged here
+                    pass
+            if path in ("wsgi_form", "asgi_form"):
+                # an earlier request whose handler closed its uploads itself before the framework closed the request (every
+                # upload closed twice), and one that never closed anything
+                up = MR.encode([MP.part("u", "a.bin", b"first upload"), MP.part("v", "b.bin", b"second")], b"bd")
+                areq = SV.AReq(method="POST", headers=[("Content-Type", "multipart/form-data; boundary=bd")], chunks=[up])
+                try:
+                    if path == "wsgi_form":
+                        from baize.wsgi import Request as WReq
+                        q = WReq(SV.to_environ(areq))
+                        for k, v in q.form.multi_items():
+                            v.close()
+                            v.close()
+                        q.close()
+                        q.close()
+                        WReq(SV.to_environ(areq)).form  # (left open)
+                    else:
+                        from baize.asgi import Request as AReq
+                        from ..core.vloop import run_coro
+                        msgs = SV.to_messages(areq)
+
+                        async def earlier():
+                            it = iter(msgs)
+
+                            async def receive():
+                                return dict(next(it))
+                            q = AReq(SV.to_scope(areq), receive)
+                            form = await q.form
+                            for k, v in form.multi_items():
+                                await v.aclose()
+                                await v.aclose()
+                            await q.close()
+                            await q.close()
+                        run_coro(earlier())
+                except Exception:  # noqa
                     pass
             for parts, boundary, charset in good:
                 body = MR.encode(parts, boundary, charset)
